@@ -16,6 +16,8 @@ from .. import pddlgen as G
 from ..core_common import catom, count_groups, cstate
 
 PROP = "C03"
+TAGS = {"c": "consistent: spec successor", "I": "inconsistent: frame/membership oracle + exact model state (order observed)",
+        "i": "inconsistent: frame/membership oracle only", "r": "refused call: an error expected", "?": "no reading / shard failed"}
 BATCH = 400
 HEADER = "From Coq Require Import PrimFloat.\nFrom Verif Require Import Spec.Pddl Corr.Core Corr.C03.\n"
 
@@ -57,8 +59,8 @@ def seq_literal(wd, sq, r):
         late = "(Some %s)" % cobs_state(o["late"]) if "late" in o else "None"
         steps.append("{| ss_src := %s; ss_allow := %s; ss_succ := %s; ss_valerr := %s; ss_late := %s |}" % (
             src, cbool(st["allow"]), cobs_state(o.get("succ")), cbool(o.get("valerr")), late))
-    return ("{| sq_action := %s; sq_args := %s; sq_start := %s; sq_order := %s; sq_uorder := %s; sq_steps := %s |}" % (
-        cstr(sq["action"]), clist([cstr(a) for a in sq["args"]]), cstate(wd["states"][sq["start"]]),
+    return ("{| sq_action := %s; sq_args := %s; sq_start := %s; sq_obs_order := %s; sq_order := %s; sq_uorder := %s; sq_steps := %s |}" % (
+        cstr(sq["action"]), clist([cstr(a) for a in sq["args"]]), cstate(wd["states"][sq["start"]]), cbool(r.get("obs_order")),
         nats(r.get("order", [])), nats(r.get("uorder", [])), clist(steps)))
 
 
@@ -115,8 +117,8 @@ def compact_literal(wd, res, eps_hex):
                 return None
             steps.append("{| xt_src := %s; xt_allow := %s; xt_succ := %s; xt_valerr := %s; xt_late := %s |}" % (
                 "None" if st["src"] is None else "(Some %d)" % st["src"], cbool(st["allow"]), s1, cbool(o.get("valerr")), late))
-        seqs.append("{| xq_call := %d; xq_start := %d; xq_order := %s; xq_uorder := %s; xq_steps := %s |}" % (
-            sq["call"], sq["start"], nats(r.get("order", [])), nats(r.get("uorder", [])), clist(steps)))
+        seqs.append("{| xq_call := %d; xq_start := %d; xq_obs_order := %s; xq_order := %s; xq_uorder := %s; xq_steps := %s |}" % (
+            sq["call"], sq["start"], cbool(r.get("obs_order")), nats(r.get("order", [])), nats(r.get("uorder", [])), clist(steps)))
     states = [compact_state(wd, st) for st in wd["states"]]
     if any(s is None for s in states):
         return None
@@ -201,7 +203,7 @@ def build_seqs(rng, w, objs, n_states, tier, calls_per_action=2, only=None):
                              "uperm": None if k is None else rng.randrange(max(1, n_perms(nuniv))),
                              "inner_seed": 0 if k is None else rng.randint(1, 10 ** 6), "kind": kind,
                              "steps": seq_steps(rng, n_states, kind, rng.choice([3, 4] if kind == "chain" else [3, 4, 5])),
-                             "d40_class": d40_class(a["eff"]), "shape": action_shape(a)})
+                             "d40_class": d40_class(a["eff"]), "qconst": ranges_over_constant(w, a), "shape": action_shape(a)})
     return seqs
 
 
@@ -221,7 +223,7 @@ def build_world(rng, w, tier, n_states, calls_per_action, name="dom", noise=True
                     probes.append({"action": a["name"], "args": args, "state": si, "perm": k,
                                    "uperm": None if k is None else rng.randrange(max(1, n_perms(nuniv))),
                                    "inner_seed": 0 if k is None else rng.randint(1, 10 ** 6),
-                                   "klass": None, "d40_class": d40_class(a["eff"]),
+                                   "klass": None, "d40_class": d40_class(a["eff"]), "qconst": ranges_over_constant(w, a),
                                    "shape": {"nwhen": nwhen, "nuniv": nuniv,
                                              "numeric": sum(1 for x in flatten(a["eff"]) if x in ("assign", "increase", "decrease"))}})
     return {"domain_text": text, "objects": objs, "states": states, "problem_texts": ptexts, "probes": probes,
@@ -256,6 +258,35 @@ def plant_when_forall(rng, w):
     cond = when[1]
     when[1] = (cond + [q]) if cond and cond[0] == "and" else ["and", cond, q]
     w.features.add("when-forall")
+    return True
+
+
+def quantified_types(t):
+    """the types of all quantifiers in a tree (universal effects and 'forall' inside conditions)"""
+    out = []
+    if isinstance(t, list):
+        if t and t[0] == "forall" and len(t) >= 3 and isinstance(t[1], list) and len(t[1]) == 3:
+            out.append(t[1][2])
+        for x in t:
+            out += quantified_types(x)
+    return out
+
+
+def ranges_over_constant(w, a):
+    """some quantifier of the action's effects ranges over a constant of the domain (the class of D30)"""
+    return any(w.is_sub(ct, ty) for ty in quantified_types(a["eff"]) for _, ct in w.consts)
+
+
+def plant_quantified_constant(rng, w):
+    """D30 class: a constant whose type is (a subtype of) a type some universal effect / quantified 'when' condition ranges over"""
+    tys = [ty for a in w.actions for ty in quantified_types(a["eff"])]
+    if not tys:
+        return False
+    ty = rng.choice(tys)
+    subs = [t for t in w.all_types() if w.is_sub(t, ty)]
+    for _ in range(rng.choice([1, 1, 2])):
+        w.consts.append(("k%d" % len(w.consts), rng.choice(subs)))
+    w.features.add("const-of-quantified-type")
     return True
 
 
@@ -407,6 +438,38 @@ def plant_read_write(rng, w, guarded=None):
     w.actions.append({"name": name, "params": params, "group": False, "pre": pre, "eff": ["and"] + items})
     w.features.add("read-write")
     return {"name": name, "F": F, "params": params, "pre": pre}
+
+
+def plant_inconsistent_univ(rng, w):
+    """a clash between the INSTANCES of one universal effect (every instance sets the same fluent, to a value that depends on
+    the instance), or between a universal effect and the unconditional group"""
+    a = rng.choice(w.actions)
+    ty = rng.choice(w.all_types())
+    scope = list(a["params"]) + [("?u", ty)]
+    prims = [x for x in a["eff"][1:] if isinstance(x, list) and x and x[0] not in ("when", "forall")]
+    fl = G.gen_fluent(rng, w, list(a["params"]))
+    if fl is not None and rng.random() < 0.6:
+        rhs = G.gen_fluent(rng, w, scope, must_include="?u") or rng.choice(["1", "2", "0.5"])
+        res = [rng.choice(["assign", "increase", "decrease"]), fl, rhs]
+    elif prims:
+        p = rng.choice(prims)
+        if p[0] in ("assign", "increase", "decrease"):
+            res = [rng.choice(["assign", "increase"]), copy_tree(p[1]), rng.choice(["1", "2", "0.5"])]
+        elif p[0] == "not":
+            res = copy_tree(p[1])
+        else:
+            res = ["not", copy_tree(p)]
+    else:
+        return False
+    cond = G.gen_form(rng, w, scope, 1, True, in_forall=True) if rng.random() < 0.5 else None
+    if cond is None:
+        lit = G.gen_atom(rng, w, scope)
+        if lit is None:
+            return False
+        cond = ["or", lit, ["not", copy_tree(lit)]]
+    a["eff"] = a["eff"] + [["forall", ["?u", "-", ty], ["when", cond, res]]]
+    w.features.add("inconsistent-universal")
+    return True
 
 
 # ----- the small scope: one action over {p/1, q/0, f/1, h/0}, types u < t, objects o0 - t, o1 - u
@@ -593,6 +656,14 @@ def generate(rng, tier):
     k = 0
     while k < n // 4:
         w = G.gen_world(rng, max_actions=2)
+        if rng.random() < 0.5:
+            plant_when_forall(rng, w)
+        if plant_quantified_constant(rng, w):
+            worlds.append(build_world(rng, w, tier, n_states=2, calls_per_action=3, stream="quantified-constant"))
+            k += 1
+    k = 0
+    while k < n // 4:
+        w = G.gen_world(rng, max_actions=2)
         if plant_del_add(rng, w):
             worlds.append(build_world(rng, w, tier, n_states=2, calls_per_action=3, stream="del-add"))
             k += 1
@@ -601,7 +672,7 @@ def generate(rng, tier):
         tries += 1
         w = G.gen_world(rng, max_actions=1)
         try:
-            ok = plant_inconsistent(rng, w)
+            ok = plant_inconsistent(rng, w) if k % 2 == 0 else plant_inconsistent_univ(rng, w)
         except Exception:  # noqa
             ok = False
         if ok:
@@ -660,7 +731,7 @@ def run(args):
              "forall_when_instances_fired": 0, "forall_when_instances_not_fired": 0,
              "probes_with_numeric_applied": 0, "numeric_effects_applied": 0, "discrete_effects_applied": 0,
              "d40_class_probes": 0, "void_probes_problem_not_read": 0, "features": {}, "compact_worlds": 0, "compact_fallback_full": 0,
-             "void_seqs_problem_not_read": 0,
+             "void_seqs_problem_not_read": 0, "judged_how": {},
              "sequences": {"total": 0, "by_kind": {}, "by_stream": {}, "calls": 0, "calls_returned": 0, "calls_refused_valueerror": 0,
                            "calls_raised_other": 0, "calls_on_previous_result": 0, "calls_on_fresh_state": 0,
                            "executed_after_an_executed_call_of_the_same_operator": 0, "refused_then_allowed": 0,
@@ -706,8 +777,12 @@ def run(args):
                 lits.append(lit)
                 units.append(2 * len(wd["probes"]) + 2 * len(res.get("seqs", [])))
                 keep.append(wi)
-            verdicts, info = run_case_shards(PROP, "Corr.C03", lits, shard_size=8, units=units, header_extra=HEADER,
-                                             max_bytes=110_000)
+            both, info = run_case_shards(PROP, "Corr.C03", lits, shard_size=8, units=[2 * u for u in units], header_extra=HEADER,
+                                         max_bytes=110_000, run_fn="Corr.C03.run2")
+            verdicts, tags = both[0::2], both[1::2]
+            if hs == hashseeds[0]:
+                for t in tags:
+                    stats["judged_how"][TAGS.get(t, t)] = stats["judged_how"].get(TAGS.get(t, t), 0) + 1
             info_total["shards"] += info["shards"]
             info_total["shard_errors"] += info["shard_errors"]
             info_total["cmd"] = info["cmd"]
@@ -820,6 +895,8 @@ def run(args):
                         sqs["by_stream"][st0] = sqs["by_stream"].get(st0, 0) + 1
                         sqs["length"][str(len(sq["steps"]))] = sqs["length"].get(str(len(sq["steps"])), 0) + 1
                         sqs["sequences_forced_order"] += 1 if sq.get("perm") is not None else 0
+                        sqs["sequences_quantifier_over_constant"] = sqs.get("sequences_quantifier_over_constant", 0) + \
+                            (1 if sq.get("qconst") else 0)
                         executed, numeric_exec, prev_refused = 0, 0, False
                         for st, o in zip(sq["steps"], r["steps"]):
                             sqs["calls"] += 1
